@@ -135,6 +135,11 @@ def c07(d, run):
                 "(sample size and residency, minimum, reject-iff-strictly-less-popular, room recomputed, stop condition); "
                 "branch counts in policy_branch_coverage")
     run.samples = d.sample_lines(trace, 2, lambda j: j.get("ev") == "add" and len(j.get("rounds", [])) >= 2)
+    # the same rule inside the cache: policy.add called by the real processor, estimates fed by real lookups / bumps
+    h = cache_stage(d, run, "policy.add inside the cache deviates from the TinyLFU / sampled-LFU rule",
+                    [], [("evict", "sync", 25, 200), ("evict", "async", 10, 80), ("ring", "sync", 8, 60)],
+                    ["costs", "store", "chan", "rounds"], ["UsedIsSum", "Bounded"], nontrivial=("PNewAdd",))
+    run.nontrivial = len(getattr(run, "_distinct", ()))
     for k in ("evicted", "rejected", "multi_victim", "reject_after_evict", "ties", "small_sample", "over_budget_before_add"):
         if cov.get(k, 0) == 0 and not run.violations:
             raise d.ToolError("vacuous run: branch %s never crossed" % k)
@@ -146,7 +151,7 @@ def c07(d, run):
 
 ALL_INV = ["UsedIsSum", "Bounded", "Agree", "Conservation", "NeverTwice", "NothingLost", "ResidentOwned",
            "IndexExact", "NoOrphan", "MetricsLaws", "MetricsCounts", "NoLoss", "CondNeverCreates", "ClearEmpties", "ChargeFormula"]
-ALL_CMP = ["store", "em", "costs", "chan", "life", "met", "cbs", "out", "vttl", "pop"]
+ALL_CMP = ["store", "em", "costs", "chan", "life", "met", "cbs", "out", "vttl", "pop", "rounds"]
 
 MC_NAMES = {
     "seq": "MC_Cache_seq (1 client x 4 calls; colliding keys; veto validator; internal cost 1; insert/insert_if_present/remove/get/clear/set_max)",
@@ -354,7 +359,7 @@ BASE_ASSUME = ["events are recorded at the yield points of hooks H4 between crit
 def c02(d, run):
     h = cache_stage(d, run, "real cache deviates from Cache.tla (lookup results / resident values)",
                     ["conc", "seq"],
-                    [("conc", "sync", 40, 300), ("conc_clear", "sync", 15, 150), ("seq", "sync", 15, 100), ("seq_veto", "sync", 10, 80), ("ttl", "sync", 10, 80)],
+                    [("conc", "sync", 30, 300), ("conc", "async", 15, 120), ("conc_clear", "sync", 15, 150), ("seq", "sync", 15, 100), ("seq_veto", "sync", 10, 80), ("ttl", "sync", 10, 80)],
                     ["store", "out", "chan"], ["ResidentOwned", "NeverTwice", "NothingLost"], nontrivial=("Get", "GetMut"))
     sim_stage(d, run, "real cache deviates from Cache.tla (lookup results / resident values)", ["store", "out", "chan"],
               ["ResidentOwned", "NeverTwice", "NothingLost"], 30, 300)
@@ -372,7 +377,7 @@ def c02(d, run):
 def c06(d, run):
     h = cache_stage(d, run, "real cache deviates from Cache.tla (resident entries vs policy charges)",
                     ["conc", "seq", "ttl"],
-                    [("conc", "sync", 30, 300), ("evict", "sync", 25, 200), ("seq", "sync", 15, 150), ("ttl", "sync", 10, 80), ("conc_clear", "sync", 10, 100)],
+                    [("conc", "sync", 30, 300), ("conc", "async", 15, 120), ("evict", "sync", 25, 200), ("seq", "sync", 15, 150), ("ttl", "sync", 10, 80), ("conc_clear", "sync", 10, 100)],
                     ["store", "costs", "chan"], ["Agree", "UsedIsSum"], nontrivial=("End", "WaitRet", "PWait", "PDelPolicy", "PVictim", "PNewStore"))
     sim_stage(d, run, "real cache deviates from Cache.tla (resident entries vs policy charges)", ["store", "costs", "chan"],
               ["Agree", "UsedIsSum"], 30, 300)
@@ -390,7 +395,7 @@ def c06(d, run):
 def c08(d, run):
     h = cache_stage(d, run, "real cache deviates from Cache.tla (callbacks / value conservation)",
                     ["conc", "seq", "ttl"],
-                    [("conc", "sync", 30, 300), ("evict", "sync", 25, 200), ("seq", "sync", 15, 150), ("seq_veto", "sync", 10, 60), ("ttl", "sync", 10, 80)],
+                    [("conc", "sync", 30, 300), ("conc", "async", 15, 120), ("evict", "sync", 25, 200), ("seq", "sync", 15, 150), ("seq_veto", "sync", 10, 60), ("ttl", "sync", 10, 80), ("ttl_conc", "sync", 10, 80)],
                     ["store", "cbs", "chan", "costs"], ["Conservation", "NeverTwice", "NothingLost", "ResidentOwned"], nontrivial=("PVictim", "PDelPolicy", "PCleanupDone", "RemStore", "PCleanItem", "PNewStore", "InsBegin"))
     sim_stage(d, run, "real cache deviates from Cache.tla (callbacks / value conservation)", ["store", "cbs", "chan", "costs"],
               ["Conservation", "NeverTwice", "NothingLost", "ResidentOwned"], 30, 300)
@@ -418,7 +423,7 @@ def c10(d, run):
     _liveness(d, run)
     h = cache_stage(d, run, "real cache deviates from Cache.tla (wait barrier / termination)",
                     ["life", "conc"],
-                    [("life", "sync", 40, 300), ("conc_clear", "sync", 25, 150), ("conc", "sync", 15, 100)],
+                    [("life", "sync", 40, 300), ("life", "async", 15, 120), ("conc_clear", "sync", 25, 150), ("conc", "sync", 15, 100), ("conc", "async", 15, 100)],
                     ["chan", "out", "store", "costs"], ["NoOrphan", "Agree"], nontrivial=("WaitSend", "WaitBlock", "WaitRet", "PWait", "PCleanItem", "PStop"))
     sim_stage(d, run, "real cache deviates from Cache.tla (wait barrier / termination)", ["chan", "out", "store", "costs"],
               ["NoOrphan", "Agree"], 40, 400)
@@ -440,7 +445,7 @@ def c12(d, run):
     _liveness(d, run)
     h = cache_stage(d, run, "real cache deviates from Cache.tla (close protocol)",
                     ["life"],
-                    [("life", "sync", 50, 400)],
+                    [("life", "sync", 50, 400), ("life", "async", 20, 150)],
                     ["life", "out", "chan", "store"], ["NoOrphan"], nontrivial=("ClrSend", "ClsStopSend", "ClsStopFail", "ClsPol", "ClsPolSend", "ClsPolFlag", "ClsFlag", "PStop", "LStop"))
     sim_stage(d, run, "real cache deviates from Cache.tla (close protocol)", ["life", "out", "chan", "store"], ["NoOrphan"], 40, 400,
               flavors=("sync", "async"))
@@ -605,6 +610,25 @@ def c18(d, run):
     run.assumptions = BASE_ASSUME
 
 
+def ring_stage(d, run, combos):
+    """lookup recording of the given (profile, flavour) runs validated by Ring_Trace.tla"""
+    wd = run.workdir
+    hist = {}
+    for (prof, flavor, nq, nt) in combos:
+        n = nt if _thorough(run) else nq
+        trace = os.path.join(wd, "ring-%s-%s.ndjson" % (prof, flavor))
+        info = d.vh(["cache", "--profile", prof, "--flavor", flavor, "--n", n, "--seed", run.seed, "--out", trace], timeout=1800)
+        for k, v in info.get("hist", {}).items():
+            hist[k] = hist.get(k, 0) + v
+        files = d.split_trace(trace, os.path.join(wd, "chunks-ring-%s-%s" % (prof, flavor)), start_events=("Init",), max_lines=1500)
+        res = d.validate_chunks("Ring_Trace.tla", "Ring_Trace.cfg", files, wd, par=8, start_events=("Init",))
+        d.report_trace_results(run, res, "real lookup recording deviates from Ring.tla [profile %s, %s]" % (prof, flavor))
+        _distinct_add(run, trace, ("Get", "GetMut", "LRecv"))
+        run.traces += n
+        run.evaluations += info.get("events", 0)
+    return hist
+
+
 def c15(d, run):
     wd = run.workdir
     for cfg, name in (("MC_Ring_b0q3.cfg", "buffer_items 0, queue 3"), ("MC_Ring_b1q3.cfg", "buffer_items 1, queue 3"),
@@ -672,6 +696,7 @@ def c19(d, run):
                     [("seq", "async", 8, 120), ("conc", "async", 15, 200), ("conc_clear", "async", 10, 120), ("life", "async", 15, 200),
                      ("ttl", "async", 6, 80), ("evict", "async", 10, 120), ("ttl_conc", "async", 6, 80)],
                     ALL_CMP, ALL_INV, nontrivial=("RemSendA", "RemRet", "RemBlock", "PStop", "LStop", "ClsStopSend", "ClsPolSend", "PCleanupKey", "InsBegin", "Get"))
+    ring_stage(d, run, [("ring", "async", 10, 80), ("cfg", "async", 10, 70)])
     sim_stage(d, run, "real AsyncCache deviates from Cache.tla", ALL_CMP, ALL_INV, 30, 300, flavors=("async",))
     free_stage(d, run, "AsyncCache's real background tasks violate a state predicate of Cache.tla",
                [("async", "thread", 4, 24), ("async", "pool", 4, 24), ("async", "local", 4, 24), ("sync", "thread", 4, 8)])
